@@ -20,6 +20,7 @@ OBLIGATIONS = [
     "Pkgcore.C23.reset_after_fixers_counterexample",
     "Pkgcore.C23.ebuild_engine_premerge_hardens",
     "Pkgcore.C23.outcome_independent_of_other_entries",
+    "Pkgcore.C23.outcome_independent_of_names",
     "Pkgcore.C23.spec_checker_sound",
 ]
 TRUSTED = [
@@ -39,6 +40,8 @@ ASSUMPTIONS = [
     "also registers instances with a distinct build uid/gid through the public register() API)",
 ]
 RULE = ("[also: engines assembled the way the ebuild format does it — default plugins with real build ids, format triggers incl. preinst_contents_reset, domain triggers — and "
+        "entry names with %-format / str.format / shell metacharacters, reported through the real interpolating observer outputs (file_handle_output, formatter_output) as "
+        "well as a recording stub, offsets with such characters; "
         "runs in which an unrelated pre_merge trigger of priority 5/20/49/60 raises a suppressed exception; file entries that are further names of one inode "
         "(hardlinks: shared st_dev/st_ino, data, mtime; mostly shared, sometimes differing mode/owner) and file entries without st_dev/st_ino] contents sets of 0-9 entries of the five fs classes with distinct locations; modes drawn from all 4096 permission-bit combinations (biased towards set-id and "
         "world-writable ones) optionally with the S_IF* type bits a livefs scan records; uid/gid from {0, build, other}; run through the pre_merge hook of a real "
